@@ -633,11 +633,6 @@ Qed.
 (* whatever the waiter is doing, if it is left to run alone it either returns
    or ends up parked with all its conditions false: the protocol has no other
    place to get stuck *)
-Definition parked_all_false (s : wsys) (wt : waiter) : Prop :=
-  w_pc wt = Await /\ notif (w_sys s) (w_ch wt) = false /\
-  (exists x, nth_error (chans (w_sys s)) (w_ch wt) = Some x /\ parked x = true) /\
-  forall c, In c (w_att wt) -> sys_trigger (w_sys s) c = false.
-
 Lemma wrun_steps_inv : forall fx n s w, w_inv s -> w_inv (wrun fx s (repeat (WStep w) n)).
 Proof.
   intros fx n s w H. apply wrun_inv; [|exact H].
